@@ -738,54 +738,55 @@ theorem mapOpt_map_left {α β : Type} (f : β → Option α) (g : α → β) :
     have ih := mapOpt_map_left f g l (fun x hx => h x (List.mem_cons_of_mem _ hx))
     simp [mapOpt, h a (List.mem_cons_self ..), ih]
 
-theorem indexOfName_formals (c : Circ) (w : Nat) (hw : w < c.numQubits)
-    (hnd : (qasmFormals Quirks.none c).Nodup) :
-    indexOfName (qasmFormals Quirks.none c) (nameOfIndex c.qmap w) = some w := by
-  have hl : w < (qasmFormals Quirks.none c).length := by simpa [qasmFormals, Quirks.none] using hw
-  have := indexOfName_get (qasmFormals Quirks.none c) w hl hnd
-  simpa [qasmFormals, Quirks.none] using this
+theorem qasmRepaired_none : QasmRepaired Quirks.none := ⟨rfl, rfl⟩
 
-/-- text of the parameter as the reader sees it -/
-def paramText : Param → Option Text
-  | .lit s => some s.toList
-  | _ => none
+theorem qasmFormals_repaired {q : Quirks} (hq : QasmRepaired q) (c : Circ) :
+    qasmFormals q c = (List.range c.numQubits).map (nameOfIndex c.qmap) := by
+  simp [qasmFormals, hq.1]
+
+theorem indexOfName_formals {q : Quirks} (hq : QasmRepaired q) (c : Circ) (w : Nat)
+    (hw : w < c.numQubits) (hnd : (qasmFormals q c).Nodup) :
+    indexOfName (qasmFormals q c) (nameOfIndex c.qmap w) = some w := by
+  have hl : w < (qasmFormals q c).length := by simpa [qasmFormals_repaired hq] using hw
+  have := indexOfName_get (qasmFormals q c) w hl hnd
+  simpa [qasmFormals_repaired hq] using this
 
 /-- the body line of a non-nop gate in the repaired exporter -/
-def lineFor (c : Circ) (g : AGate) : QLine :=
-  ⟨qasmName g.cls, paramText g.param, g.wires.map (nameOfIndex c.qmap)⟩
+def lineFor (q : Quirks) (fv : FloatOf) (c : Circ) (g : AGate) : QLine :=
+  ⟨qasmName g.cls, qasmParamText q fv g.param, g.wires.map (nameOfIndex c.qmap)⟩
 
-/-- the line the repaired exporter prints for a well-formed non-nop gate -/
-theorem qasmLineOf_eq (fv : FloatOf) (c : Circ) (g : AGate) (n : Nat) (hwf : gateWF fv n g = true)
-    {bk : Base × Nat} (hk : kind g.cls = some bk) :
-    qasmLineOf Quirks.none fv c g = some (lineFor c g) := by
+/-- the line the exporter prints for a well-formed non-nop gate -/
+theorem qasmLineOf_eq {q : Quirks} (hq : QasmRepaired q) (fv : FloatOf) (c : Circ) (g : AGate)
+    (n : Nat) (hwf : gateWF fv n g = true) {bk : Base × Nat} (hk : kind g.cls = some bk) :
+    qasmLineOf q fv c g = some (lineFor q fv c g) := by
   obtain ⟨b, k⟩ := bk
   have hp := gateWF_param hwf hk
-  have hw : mapOpt (qasmWireName Quirks.none c) g.wires = some (g.wires.map (nameOfIndex c.qmap)) :=
-    mapOpt_map _ _ _ (fun w _ => by simp [qasmWireName, Quirks.none])
+  have hw : mapOpt (qasmWireName q c) g.wires = some (g.wires.map (nameOfIndex c.qmap)) :=
+    mapOpt_map _ _ _ (fun w _ => by simp [qasmWireName, hq.1])
   unfold qasmLineOf
   rw [hw]
   cases hb : takesParam b with
-  | false => simp [hp.1 hb, hasParam, Quirks.none, paramText, lineFor]
+  | false => simp [hp.1 hb, hasParam, hq.2, qasmParamText, lineFor]
   | true =>
-    obtain ⟨s, hs, _⟩ := hp.2 hb
-    simp [hs, hasParam, Quirks.none, paramText, qasmParamText, lineFor]
+    obtain ⟨s, hs, hv⟩ := hp.2 hb
+    obtain ⟨v, hv⟩ := Option.isSome_iff_exists.mp hv
+    cases h2 : q.qasmParam2f <;> simp [hs, hasParam, hq.2, qasmParamText, lineFor, h2, hv]
 
-theorem gateTOp_eq (g : AGate) : gateTOp g =
-    (kind g.cls).map fun bk => { base := bk.1, nctrl := bk.2, wires := g.wires, ptext := paramText g.param } := by
-  unfold gateTOp paramText
+theorem gateTOpQ_none (fv : FloatOf) (g : AGate) : gateTOpQ Quirks.none fv g = gateTOp g := by
+  unfold gateTOpQ gateTOp
   cases kind g.cls <;> simp
-  cases g.param <;> rfl
+  cases g.param <;> simp [qasmParamText, Quirks.none]
 
-theorem lineOp_line (fv : FloatOf) (c : Circ) (g : AGate) (hwf : gateWF fv c.numQubits g = true)
-    {bk : Base × Nat} (hk : kind g.cls = some bk) (hnd : (qasmFormals Quirks.none c).Nodup) :
-    lineOp (qasmFormals Quirks.none c) (lineFor c g) = gateTOp g := by
+theorem lineOp_line {q : Quirks} (hq : QasmRepaired q) (fv : FloatOf) (c : Circ) (g : AGate)
+    (hwf : gateWF fv c.numQubits g = true)
+    {bk : Base × Nat} (hk : kind g.cls = some bk) (hnd : (qasmFormals q c).Nodup) :
+    lineOp (qasmFormals q c) (lineFor q fv c g) = gateTOpQ q fv g := by
   have hall : ∀ w ∈ g.wires, w < c.numQubits := by
     simp [gateWF, List.all_eq_true] at hwf
     exact hwf.1.2
-  have hidx : mapOpt (indexOfName (qasmFormals Quirks.none c)) (g.wires.map (nameOfIndex c.qmap)) = some g.wires := by
-    exact mapOpt_map_left _ _ _ (fun w hw => indexOfName_formals c w (hall w hw) hnd)
-  simp [lineOp, lineFor, kindOfQasm_qasmName hk, hidx, gateTOp_eq, hk]
-
+  have hidx : mapOpt (indexOfName (qasmFormals q c)) (g.wires.map (nameOfIndex c.qmap)) = some g.wires := by
+    exact mapOpt_map_left _ _ _ (fun w hw => indexOfName_formals hq c w (hall w hw) hnd)
+  simp [lineOp, lineFor, kindOfQasm_qasmName hk, hidx, gateTOpQ, hk]
 
 theorem exportable_kind {cls : GClass} (he : qasmExportable cls = true) (hn : ¬ cls.isNop = true) :
     ∃ bk, kind cls = some bk := by
@@ -793,23 +794,22 @@ theorem exportable_kind {cls : GClass} (he : qasmExportable cls = true) (hn : ¬
   exact Option.isSome_iff_exists.mp he
 
 /-- the lines of the body, read against the formals, are the circuit's operations -/
-theorem declOps_body (fv : FloatOf) (c : Circ)
+theorem declOps_body {q : Quirks} (hq : QasmRepaired q) (fv : FloatOf) (c : Circ)
     (hwf : ∀ g ∈ c.gates, gateWF fv c.numQubits g = true)
     (he : ∀ g ∈ c.gates, qasmExportable g.cls = true)
-    (hnd : (qasmFormals Quirks.none c).Nodup) :
-    mapOpt (lineOp (qasmFormals Quirks.none c))
-      (c.gates.filterMap (fun g => if g.cls.isNop then none else qasmLineOf Quirks.none fv c g)) =
-      some (c.gates.filterMap gateTOp) := by
+    (hnd : (qasmFormals q c).Nodup) :
+    mapOpt (lineOp (qasmFormals q c))
+      (c.gates.filterMap (fun g => if g.cls.isNop then none else qasmLineOf q fv c g)) =
+      some (c.gates.filterMap (gateTOpQ q fv)) := by
   apply mapOpt_filterMap
   intro g hg
   by_cases hn : g.cls.isNop = true
-  · simp [hn, gateTOp, isNop_kind hn]
+  · simp [hn, gateTOpQ, isNop_kind hn]
   · obtain ⟨bk, hk⟩ := exportable_kind (he g hg) hn
-    simp only [hn, Bool.false_eq_true, ↓reduceIte, qasmLineOf_eq fv c g _ (hwf g hg) hk]
-    have ht : gateTOp g = some ⟨bk.1, bk.2, g.wires, paramText g.param⟩ := by
-      simp [gateTOp_eq, hk]
-    exact ⟨_, (lineOp_line fv c g (hwf g hg) hk hnd).trans ht, ht⟩
-
+    simp only [hn, Bool.false_eq_true, ↓reduceIte, qasmLineOf_eq hq fv c g _ (hwf g hg) hk]
+    have ht : gateTOpQ q fv g = some ⟨bk.1, bk.2, g.wires, qasmParamText q fv g.param⟩ := by
+      simp [gateTOpQ, hk]
+    exact ⟨_, (lineOp_line hq fv c g (hwf g hg) hk hnd).trans ht, ht⟩
 
 /-! ## (c) readable tokens from conditions on the names -/
 
@@ -920,8 +920,9 @@ theorem nodup_map_range {β : Type} (f : Nat → β) (n : Nat)
   intro a b ha hb hne e
   exact hne (hinj a b (List.mem_range.mp ha) (List.mem_range.mp hb) e)
 
-theorem formals_nodup {c : Circ} (h : WellNamedSpec c) : (qasmFormals Quirks.none c).Nodup := by
-  simp only [qasmFormals, Quirks.none, Bool.false_eq_true, ↓reduceIte]
+theorem formals_nodup {q : Quirks} (hq : QasmRepaired q) {c : Circ} (h : WellNamedSpec c) :
+    (qasmFormals q c).Nodup := by
+  rw [qasmFormals_repaired hq]
   exact nodup_map_range _ _ (fun i j hi hj e => nameOfIndex_inj h hi hj e)
 
 
@@ -947,15 +948,49 @@ theorem kind_nQubits_pos {cls : GClass} {bk : Base × Nat} (hk : kind cls = some
     0 < cls.nQubits := by
   cases cls <;> simp [kind] at hk <;> simp [GClass.nQubits]
 
-theorem lineFor_ok (fv : FloatOf) {c : Circ} (h : WellNamedSpec c) (g : AGate)
+theorem digit_plain {ch : Char} (h : ch.isDigit = true) : (ch != ' ' && ch != '\n') = true := by
+  have h1 : ch ≠ ' ' := by rintro rfl; revert h; decide
+  have h2 : ch ≠ '\n' := by rintro rfl; revert h; decide
+  simp [h1, h2]
+
+theorem natText_plain (i : Nat) : ∀ ch ∈ natText i, (ch != ' ' && ch != '\n') = true :=
+  fun _ hc => digit_plain (Nat.isDigit_of_mem_toDigits (by decide) (by decide) hc)
+
+theorem pad2_plain (n : Nat) : ∀ ch ∈ pad2 n, (ch != ' ' && ch != '\n') = true := by
+  intro ch hc
+  unfold pad2 at hc
+  split at hc
+  · rcases List.mem_cons.mp hc with hc | hc
+    · subst hc; decide
+    · exact natText_plain _ ch hc
+  · exact natText_plain _ ch hc
+
+/-- `{p:.2f}` prints sign, digits and a point -/
+theorem fmt2f_plain (v : FVal) : ptextOK (some (fmt2f v)) = true := by
+  simp only [ptextOK, fmt2f, List.all_eq_true]
+  intro ch hc
+  simp only [List.mem_append, List.mem_cons] at hc
+  rcases hc with (hc | hc) | hc | hc
+  · cases hn : v.neg <;> simp [hn] at hc
+    subst hc; decide
+  · exact natText_plain _ ch hc
+  · subst hc; decide
+  · exact pad2_plain _ ch hc
+
+theorem lineFor_ok (q : Quirks) (fv : FloatOf) {c : Circ} (h : WellNamedSpec c) (g : AGate)
     (hwf : gateWF fv c.numQubits g = true) {bk : Base × Nat} (hk : kind g.cls = some bk)
-    (hp : paramPlain g.param = true) : lineOK (lineFor c g) = true := by
+    (hp : paramPlain g.param = true) : lineOK (lineFor q fv c g) = true := by
   have hlen := gateWF_len hwf
   have hpos := kind_nQubits_pos hk
   have hne : g.wires ≠ [] := by intro e; rw [e] at hlen; simp at hlen; omega
-  have hpt : ptextOK (paramText g.param) = true := by
-    cases hg : g.param <;> simp [paramText, ptextOK]
-    case lit s => simpa [hg, paramPlain] using hp
+  have hpt : ptextOK (qasmParamText q fv g.param) = true := by
+    cases hg : g.param <;> simp only [qasmParamText, ptextOK]
+    case lit s =>
+      cases h2 : q.qasmParam2f
+      · simpa [hg, paramPlain, ptextOK] using hp
+      · cases hv : fv s with
+        | none => simp [ptextOK]
+        | some v => exact fmt2f_plain v
   simp only [lineOK, lineFor, Bool.and_eq_true, qasmName_tokenOK hk, hpt, List.all_eq_true]
   refine ⟨⟨⟨trivial, trivial⟩, by simpa using hne⟩, ?_⟩
   intro t ht
@@ -964,20 +999,20 @@ theorem lineFor_ok (fv : FloatOf) {c : Circ} (h : WellNamedSpec c) (g : AGate)
 
 /-- the repaired exporter returns on every well-formed circuit over the readable gate set: one
 line per non-nop gate -/
-theorem qasmBody_eq (fv : FloatOf) (c : Circ)
+theorem qasmBody_eq {q : Quirks} (hq : QasmRepaired q) (fv : FloatOf) (c : Circ)
     (hwf : ∀ g ∈ c.gates, gateWF fv c.numQubits g = true)
     (he : ∀ g ∈ c.gates, qasmExportable g.cls = true) :
-    qasmBody Quirks.none fv c =
-      .ok (c.gates.filterMap (fun g => if g.cls.isNop then none else some (lineFor c g))) := by
-  have hstep : ∀ g ∈ c.gates, qasmStep Quirks.none fv c g =
-      if g.cls.isNop then .skip else .emit (lineFor c g) := by
+    qasmBody q fv c =
+      .ok (c.gates.filterMap (fun g => if g.cls.isNop then none else some (lineFor q fv c g))) := by
+  have hstep : ∀ g ∈ c.gates, qasmStep q fv c g =
+      if g.cls.isNop then .skip else .emit (lineFor q fv c g) := by
     intro g hg
     unfold qasmStep
     by_cases hn : g.cls.isNop = true
     · simp [hn]
     · obtain ⟨bk, hk⟩ := exportable_kind (he g hg) hn
-      simp [hn, qasmLineOf_eq fv c g _ (hwf g hg) hk]
-  obtain ⟨out, ho⟩ := runSteps_total (qasmStep Quirks.none fv c) c.gates (by
+      simp [hn, qasmLineOf_eq hq fv c g _ (hwf g hg) hk]
+  obtain ⟨out, ho⟩ := runSteps_total (qasmStep q fv c) c.gates (by
     intro g hg m
     rw [hstep g hg]
     split <;> simp)
@@ -989,19 +1024,19 @@ theorem qasmBody_eq (fv : FloatOf) (c : Circ)
   rw [hstep g hg]
   split <;> simp [Step.toOption]
 
-theorem readable_of_wellNamed (fv : FloatOf) (c : Circ)
+theorem readable_of_wellNamed {q : Quirks} (hq : QasmRepaired q) (fv : FloatOf) (c : Circ)
     (hwf : ∀ g ∈ c.gates, gateWF fv c.numQubits g = true)
     (he : ∀ g ∈ c.gates, qasmExportable g.cls = true)
     (hp : paramsPlain c.gates = true) (hn : wellNamed c = true) :
-    qasmReadable Quirks.none fv c = true ∧ (qasmFormals Quirks.none c).Nodup := by
+    qasmReadable q fv c = true ∧ (qasmFormals q c).Nodup := by
   have hs := wellNamed_spec hn
-  refine ⟨?_, formals_nodup hs⟩
+  refine ⟨?_, formals_nodup hq hs⟩
   unfold qasmReadable
-  rw [qasmBody_eq fv c hwf he]
+  rw [qasmBody_eq hq fv c hwf he]
   simp only [Bool.and_eq_true, List.all_eq_true]
   refine ⟨⟨identOK_tokenOK hs.name, ?_⟩, ?_⟩
   · intro t ht
-    simp only [qasmFormals, Quirks.none, Bool.false_eq_true, ↓reduceIte] at ht
+    rw [qasmFormals_repaired hq] at ht
     obtain ⟨i, _, rfl⟩ := List.mem_map.mp ht
     exact identOK_tokenOK (nameOfIndex_identOK hs i)
   · intro l hl
@@ -1012,6 +1047,6 @@ theorem readable_of_wellNamed (fv : FloatOf) (c : Circ)
       subst hgl
       obtain ⟨bk, hk⟩ := exportable_kind (he g hg) hnop
       simp only [paramsPlain, List.all_eq_true] at hp
-      exact lineFor_ok fv hs g (hwf g hg) hk (hp g hg)
+      exact lineFor_ok q fv hs g (hwf g hg) hk (hp g hg)
 
 end QV.Export
